@@ -1,5 +1,6 @@
 import Dbus.Proofs.Bus.Limits
 import Dbus.Proofs.Bus.Monitors
+import Dbus.Proofs.Bus.MonInv
 /-
   C18 — a monitor sees everything that matches and can affect nothing.
 
@@ -221,21 +222,26 @@ theorem monitor_rules_eavesdrop : ∀ (texts : List Bytes) (rules : List MatchRu
 
 /-! ### what the other clients observe
 
-  FULL STATEMENT (C18, not proved in this generality): for every history, the deliveries to
-  connections that are not monitors are the same as in the history in which the monitors never
-  became monitors.  It is tested differentially on the daemon (every history re-run with the
-  monitor gone) and holds structurally in the model (`Tx.mon` is written, never read).
+  FULL STATEMENT (C18): for every history, what the bus sends to its clients is what it sends in the
+  history in which the monitors never became monitors.
 
-  PROVED PART (`…_partial`): one dispatch.  With every monitor turned back into an idle ordinary
-  connection (`shade`: same place among the connections, no filter, not a monitor) the gate gives
-  the same verdicts, the same connections have a matching rule, and routing a message or sending a
-  driver message produces the same ordinary deliveries, the same error and the same state changes.
-  For peer traffic (every message not addressed to the bus driver) this is lifted to a whole step of
-  the bus (`peer_traffic_step_ignores_monitors_partial`); the registry edits are covered too
-  (`shadow_acquire`, `shadow_release`, `shadow_removeOwner` in Proofs/Bus/Monitors.lean).  What is
-  missing for the full statement is the same congruence for the rest of the driver's methods (Hello,
-  AddMatch/RemoveMatch, BecomeMonitor itself) and the disconnect path, the invariant that no pending
-  reply involves a monitor, and the induction over histories. -/
+  Made precise for the core bus (`run`, i.e. without the activation and clock layers): `shade none b`
+  is `b` with every monitor turned into a registered ordinary connection without match rules (it keeps
+  its place, its unique name and its uid, so every count the limits look at is the same).  The world
+  without monitors (`shadowRun`) takes the same events, except that a monitor that sends - which the
+  bus answers by disconnecting it - is a connection that sent something unacceptable (`shadowEv`); its
+  state after every step is shaded again, so a BecomeMonitor call there has all its effects (names
+  released, rules dropped, reply sent) but leaves an ordinary connection.
+
+  PROVED: `others_observe_the_same` - for every history from every good state (`Good`: the invariant
+  of `Proofs/Bus/MonInv.lean`, which holds in every reachable state, `good_run`), hence from the empty
+  bus (`others_observe_the_same_from_start`): the two runs produce the same outputs, step by step, and
+  their states agree up to shading.  `step_ignores_monitors` is the one-step version.
+
+  PARTIAL still: the activation layer (`stepA`: a message held for a service that is being started is
+  delivered later; if its sender has become a monitor in between, a pending reply with a monitor as
+  caller is recorded, which the invariant excludes for the core) and the clock layer are not covered
+  by the history theorem; for them the per-dispatch theorems below and the differential test stand. -/
 
 theorem gate_ignores_monitors (b : Bus) (s a p : Option ConnId) (m : Msg) :
     checkPolicy (shade none b) s a p m = checkPolicy b s a p m := checkPolicy_shade b s a p m
@@ -273,6 +279,116 @@ theorem new_monitor_has_no_rules (c : ConnId) (x : Conn) (rules : List MatchRule
   · simp only [h, if_true]; trivial
   · simp only [h, if_false] at hid ⊢
     exact absurd (by simpa using hid) h
+
+/-! ### the whole history -/
+
+/-- the world without monitors, run alongside the real one (which only says which senders are monitors) -/
+def shadowRun (tbl : List IfaceRow) : Bus → Bus → List Ev → List (List Out)
+  | _, _, [] => []
+  | b, s, ev :: evs =>
+    (step tbl s (shadowEv b ev)).out :: shadowRun tbl (step tbl b ev).bus (shade none (step tbl s (shadowEv b ev)).bus) evs
+
+theorem foldl_run_acc (tbl : List IfaceRow) : ∀ (evs : List Ev) (b : Bus) (acc : List (List Out)),
+    evs.foldl (fun (a : Bus × List (List Out)) ev => ((step tbl a.1 ev).bus, a.2 ++ [(step tbl a.1 ev).out])) (b, acc) =
+    ((evs.foldl (fun (a : Bus × List (List Out)) ev => ((step tbl a.1 ev).bus, a.2 ++ [(step tbl a.1 ev).out])) (b, [])).1,
+     acc ++ (evs.foldl (fun (a : Bus × List (List Out)) ev => ((step tbl a.1 ev).bus, a.2 ++ [(step tbl a.1 ev).out])) (b, [])).2)
+  | [], b, acc => by simp
+  | ev :: evs, b, acc => by
+    simp only [List.foldl_cons, List.nil_append]
+    rw [foldl_run_acc tbl evs _ (acc ++ [(step tbl b ev).out]), foldl_run_acc tbl evs _ [(step tbl b ev).out]]
+    simp [List.append_assoc]
+
+theorem run_cons (tbl : List IfaceRow) (b : Bus) (ev : Ev) (evs : List Ev) :
+    (run tbl b (ev :: evs)).2 = (step tbl b ev).out :: (run tbl (step tbl b ev).bus evs).2 ∧
+    (run tbl b (ev :: evs)).1 = (run tbl (step tbl b ev).bus evs).1 := by
+  unfold run
+  simp only [List.foldl_cons, List.nil_append]
+  rw [foldl_run_acc tbl evs _ [(step tbl b ev).out]]
+  exact ⟨rfl, rfl⟩
+
+/-- **One step, with and without the monitors**, in every good state: the same outputs, the same state up to shading. -/
+theorem step_ignores_monitors (tbl : List IfaceRow) (b : Bus) (h : Good b) (ev : Ev) :
+    (step tbl (shade none b) (shadowEv b ev)).out = (step tbl b ev).out ∧
+    shade none (step tbl (shade none b) (shadowEv b ev)).bus = shade none (step tbl b ev).bus := by
+  have := step_sim tbl b h.ids h.reg.clean
+    (fun c m x hx hm => quietX_before_sweep tbl h c m (actor_of_conn h.ids hx hm) (nonMon_of_conn hx hm)) ev
+  exact ⟨this.2, this.1⟩
+
+/-- **A monitor can affect nothing**: over any history from a good state, the clients are sent exactly what they are sent in
+    the world without monitors. -/
+theorem others_observe_the_same (tbl : List IfaceRow) : ∀ (evs : List Ev) (b : Bus), Good b →
+    (run tbl b evs).2 = shadowRun tbl b (shade none b) evs
+  | [], _, _ => rfl
+  | ev :: evs, b, h => by
+    have hs := step_ignores_monitors tbl b h ev
+    rw [(run_cons tbl b ev evs).1]
+    show _ = (step tbl (shade none b) (shadowEv b ev)).out :: shadowRun tbl (step tbl b ev).bus
+      (shade none (step tbl (shade none b) (shadowEv b ev)).bus) evs
+    rw [hs.1, hs.2]
+    congr 1
+    exact others_observe_the_same tbl evs _ (good_step tbl h ev)
+
+theorem others_observe_the_same_from_start (tbl : List IfaceRow) (l : Limits) (p : Policy) (evs : List Ev) :
+    (run tbl { limits := l, policy := p } evs).2 = shadowRun tbl { limits := l, policy := p } { limits := l, policy := p } evs :=
+  others_observe_the_same tbl evs _ (good_init l p)
+
+/-- the world without monitors really has none -/
+theorem shaded_bus_has_no_monitor (b : Bus) : ∀ x ∈ (shade none b).conns, x.monitor = false := by
+  intro x hx
+  unfold shade at hx
+  obtain ⟨y, _, rfl⟩ := List.mem_map.mp hx
+  exact neutral_monitor_none y
+
+/-- what the invariant says about monitors in every reachable state: no match rules, no names, no pending replies -/
+theorem reachable_monitor_is_inert (tbl : List IfaceRow) (l : Limits) (p : Policy) (evs : List Ev) :
+    ∀ x ∈ (run tbl { limits := l, policy := p } evs).1.conns, x.monitor = true →
+      x.rules = [] ∧
+      (∀ s ∈ (run tbl { limits := l, policy := p } evs).1.services, inQueue s.owners x.id = false) ∧
+      (∀ e ∈ (run tbl { limits := l, policy := p } evs).1.pending, e.caller ≠ x.id ∧ e.callee ≠ x.id) := by
+  intro x hx hm
+  have hg := good_run tbl (good_init l p) evs
+  refine ⟨hg.reg.clean x hx hm, ?_, ?_⟩
+  · intro s hs
+    rw [Bool.eq_false_iff]
+    intro hq
+    obtain ⟨y, hy, hyid, hym⟩ := hg.reg.live s hs x.id hq
+    have : y = x := inj_of_nodup_map' _ hg.ids hy hx hyid
+    rw [this, hm] at hym; cases hym
+  · intro e he
+    have := hg.quiet x hx hm e he
+    unfold involves at this
+    simp only [Bool.or_eq_false_iff, beq_eq_false_iff_ne, ne_eq] at this
+    exact this
+
+
+/-- the invariant behind it (`Good`: distinct ids, well-formed queues, queue members connected and no monitors, monitors
+    without rules and without pending replies) holds in every reachable state -/
+theorem reachable_states_are_good (tbl : List IfaceRow) (l : Limits) (p : Policy) (evs : List Ev) :
+    Good (run tbl { limits := l, policy := p } evs).1 := good_run tbl (good_init l p) evs
+
+/-! non-vacuity: a reachable state with a monitor in it meets the hypotheses of the theorems above -/
+
+def MONITORING : Bytes := ([0x6f,0x72,0x67,0x2e,0x66,0x72,0x65,0x65,0x64,0x65,0x73,0x6b,0x74,0x6f,0x70,0x2e,0x44,0x42,0x75,0x73,0x2e,0x4d,0x6f,0x6e,0x69,0x74,0x6f,0x72,0x69,0x6e,0x67] : Bytes)
+def BECOME : Bytes := ([0x42,0x65,0x63,0x6f,0x6d,0x65,0x4d,0x6f,0x6e,0x69,0x74,0x6f,0x72] : Bytes)
+def HELLO : Bytes := ([0x48, 0x65, 0x6c, 0x6c, 0x6f] : Bytes)
+def monTable : List IfaceRow :=
+  [{ name := BUS_NAME, anyPath := true, methods := [{ name := HELLO, inSig := [], anyPath := true, privileged := false }] },
+   { name := MONITORING, anyPath := false, methods := [{ name := BECOME, inSig := [0x61,0x73,0x75], anyPath := false, privileged := true }] }]
+def openPolicy : Policy := { default := [⟨true, .send {}⟩, ⟨true, .receive {}⟩, ⟨true, .own none false⟩] }
+def helloMsg : Msg :=
+  { endian := .little, mtype := 1, flags := 0, version := 1, serial := 1,
+    fields := [pathField DBUS_PATH, strField FIELD_INTERFACE BUS_NAME, strField FIELD_MEMBER HELLO, strField FIELD_DESTINATION BUS_NAME],
+    bodyTypes := [], body := [] }
+def becomeMsg : Msg :=
+  { endian := .little, mtype := 1, flags := 0, version := 1, serial := 2,
+    fields := [pathField DBUS_PATH, strField FIELD_INTERFACE MONITORING, strField FIELD_MEMBER BECOME,
+               strField FIELD_DESTINATION BUS_NAME, sigField [.array tStr, tU32]],
+    bodyTypes := [.array tStr, tU32], body := [.array tStr [], .fixed .u32 0] }
+
+/-- connect (as root), Hello, BecomeMonitor: the connection is a monitor now, the state is good -/
+example : Good (run monTable { policy := openPolicy } [.connect 1 0 [] false, .msg 1 helloMsg, .msg 1 becomeMsg]).1 ∧
+    (run monTable { policy := openPolicy } [.connect 1 0 [] false, .msg 1 helloMsg, .msg 1 becomeMsg]).1.conns.map (·.monitor) = [true] :=
+  ⟨reachable_states_are_good _ _ _ _, by decide +kernel⟩
 
 /-- the hypotheses are met by a bus with a monitor in it -/
 example : MonClean { conns := [{ id := 1, uid := 0, monitor := true, monitorRules := [default] }, { id := 2, uid := 0, rules := [default] }] } := by
